@@ -81,7 +81,7 @@ def gen_history(rng):
         else:
             evs.append(('advance', rng.choice(['before', 'past', 'past', 'small', 'at'])))
     evs.append(('advance', 'past'))
-    return {'nodes': nn, 'events': evs, 'last_used': rng.choice([0, 0, 3])}
+    return {'nodes': nn, 'events': evs, 'last_used': rng.choice([0, 0, 3]), 'publish_in_callback': rng.random() < 0.25}
 
 
 def gen_vector_spec(rng, nodes):
@@ -157,7 +157,13 @@ def execute(ctx, hist, rng):
 
         async def pass_validator(n, s, c):
             return types.ValidResult.PASS
-        inst = SvsInst(BASE_PREFIX, SELF, lambda i: missing.append(S.now_ms()), DigestSha256Signer(for_interest=True),
+        cb_pubs = []
+
+        def on_missing(i):
+            missing.append(S.now_ms())
+            if hist.get('publish_in_callback'):
+                cb_pubs.append(i.new_data())       # non-blocking: an application may publish in reaction to missing data
+        inst = SvsInst(BASE_PREFIX, SELF, on_missing, DigestSha256Signer(for_interest=True),
                        pass_validator, sync_interval=30, suppression_interval=0.2, last_used_seq_num=hist['last_used'])
         inst.start(the_app)
         await asyncio.sleep(0)
@@ -223,6 +229,25 @@ def execute(ctx, hist, rng):
                     R['viol'].append((mech, f'sync handler ended with an unhandled error: {le.get("repr")}', w))
                 after_real = dict(inst.local_sv)
                 fired = len(missing) - n_missing
+                pubs_now = len(cb_pubs)
+                if pubs_now > R.get('cb_pubs_seen', 0):
+                    # the callback published: own sequence number +1 per publication, announced promptly with the full vector
+                    npub = pubs_now - R.get('cb_pubs_seen', 0)
+                    R['cb_pubs_seen'] = pubs_now
+                    self_seq += npub
+                    if cb_pubs[-1] != self_seq or after_real.get(nid(SELF)) != self_seq:
+                        R['viol'].append(('publish-seq', f'new_data() in the callback returned {cb_pubs[-1]}, expected {self_seq}', w))
+                    after_real = dict(after_real)
+                    after_real_wo_self = dict(after_real)
+                    before_real = dict(before_real)
+                    before_real[nid(SELF)] = self_seq        # the publication is not part of the merge being judged
+                    model_local[nid(SELF)] = self_seq
+                    await asyncio.sleep(0.05)
+                    em_cb = take_emissions()
+                    ctx.event('publication-from-callback')
+                    if not em_cb:
+                        R['viol'].append(('publish-not-announced-promptly', 'a publication made inside the missing-data callback was not announced within 50 ms (virtual)', w))
+                    heard = None
                 kind = ev[1]['kind']
                 wellformed = {nid(n): s for n, s in ents if n is not None and s is not None}
                 ignore = kind in ('undecodable', 'wrong-length', 'empty') or \
